@@ -7,6 +7,7 @@ CONSTANTS
   MaxReplies = 100000000
   NonceURLs = {TRUE}
   InitPools = {0}
+  StopVals = {"zero"}
 INVARIANTS N1_FreshNonces N1_Discipline N2_Bounded N2_Cancel N3_LastReply N4_PoolCap
 CONSTRAINT HWM
 POSTCONDITION TraceAccepted
